@@ -16,6 +16,7 @@ mod history;
 mod misc;
 mod targets;
 mod httpx;
+mod keyids;
 
 pub fn kp() -> Ed25519KeyPair {
     let doc = Ed25519KeyPair::generate_pkcs8(&SystemRandom::new()).unwrap();
@@ -121,6 +122,7 @@ async fn main() {
         "canon" => misc::canon(sc),
         "target_stream" => targets::op_target_stream(sc).await,
         "http_script" => httpx::op_http_script(sc).await,
+        "keyids" => keyids::op_keyids(sc),
         _ => json!({"error": format!("unknown op {op}")}),
     };
     println!("{}", out);
